@@ -192,4 +192,87 @@ theorem trajNoRelift_rec (U : List (List α)) (fuel k : Nat) (th : List α) (X T
       · simp only [List.length_append, List.length_cons, List.length_nil]; omega
       · intro hk2; omega
 
+/-- the loop logs exactly one lifted-input row per iteration … -/
+theorem trajNoRelift_ups_length (U : List (List α)) (fuel k : Nat) (th : List α) (X Ths Ups : List (List α)) :
+    (trajNoRelift env p U fuel k th X Ths Ups).2.2.length = Ups.length + fuel := by
+  induction fuel generalizing k th X Ths Ups with
+  | zero => simp [trajNoRelift]
+  | succ f ih =>
+    simp only [trajNoRelift]
+    split <;> (rw [ih]; simp; omega)
+
+/-- … one lifted state per iteration except the last, and one retracted state likewise -/
+theorem trajNoRelift_lengths (U : List (List α)) (fuel k : Nat) (th : List α) (X Ths Ups : List (List α)) :
+    (trajNoRelift env p U fuel k th X Ths Ups).2.1.length = Ths.length + min fuel (U.length - p.m + 1 - k)
+    ∧ (trajNoRelift env p U fuel k th X Ths Ups).1.length = X.length + min fuel (U.length - p.m + 1 - k) := by
+  induction fuel generalizing k th X Ths Ups with
+  | zero => simp [trajNoRelift]
+  | succ f ih =>
+    simp only [trajNoRelift]
+    generalize ((liftInputEp env p (window (k - 1) p.m X) (window (k - 1) p.m U)).head?).getD [] = up
+    split
+    · generalize (retractStateEp env p [matVec p.K (th ++ up)]).getLast?.getD [] = xk
+      obtain ⟨h1, h2⟩ := ih (k+1) (matVec p.K (th ++ up)) (X ++ [xk]) (Ths ++ [matVec p.K (th ++ up)]) (Ups ++ [up])
+      rw [h1, h2]; simp only [List.length_append, List.length_cons, List.length_nil]; omega
+    · obtain ⟨h1, h2⟩ := ih (k+1) th X Ths (Ups ++ [up])
+      rw [h1, h2]; omega
+
+/-- the known states and the logged lifted inputs only ever grow at the end -/
+theorem trajNoRelift_prefix (U : List (List α)) (fuel k : Nat) (th : List α) (X Ths Ups : List (List α)) :
+    (∃ t, (trajNoRelift env p U fuel k th X Ths Ups).1 = X ++ t)
+    ∧ (∃ t, (trajNoRelift env p U fuel k th X Ths Ups).2.2 = Ups ++ t) := by
+  induction fuel generalizing k th X Ths Ups with
+  | zero => exact ⟨⟨[], by simp [trajNoRelift]⟩, ⟨[], by simp [trajNoRelift]⟩⟩
+  | succ f ih =>
+    simp only [trajNoRelift]
+    generalize ((liftInputEp env p (window (k - 1) p.m X) (window (k - 1) p.m U)).head?).getD [] = up
+    split
+    · generalize (retractStateEp env p [matVec p.K (th ++ up)]).getLast?.getD [] = xk
+      obtain ⟨⟨t, ht⟩, ⟨t2, ht2⟩⟩ :=
+        ih (k+1) (matVec p.K (th ++ up)) (X ++ [xk]) (Ths ++ [matVec p.K (th ++ up)]) (Ups ++ [up])
+      exact ⟨⟨xk :: t, by rw [ht]; simp⟩, ⟨up :: t2, by rw [ht2]; simp⟩⟩
+    · obtain ⟨h1, ⟨t2, ht2⟩⟩ := ih (k+1) th X Ths (Ups ++ [up])
+      exact ⟨h1, ⟨up :: t2, by rw [ht2]; simp⟩⟩
+
+theorem window_append_left {β : Type} (i len : Nat) (l t : List β) (h : i + len ≤ l.length) :
+    window i len (l ++ t) = window i len l := by
+  unfold window
+  rw [List.drop_append_of_le_length (by omega), List.take_append_of_le_length (by simp; omega)]
+
+/-- every logged lifted-input row — the one of the last iteration included — is `lift_input` of the window of
+(retracted) states and supplied inputs of its own time step, taken from the FINAL state trajectory -/
+theorem trajNoRelift_ups_get (U : List (List α)) (fuel k : Nat) (th : List α) (X Ths Ups : List (List α))
+    (hk : 1 ≤ k) (hfuel : k + fuel ≤ U.length - p.m + 1 + 1) (hX : X.length = p.m + (k - 1)) (j : Nat)
+    (hj : j < fuel) :
+    (trajNoRelift env p U fuel k th X Ths Ups).2.2[Ups.length + j]?
+      = some (((liftInputEp env p (window (k - 1 + j) p.m (trajNoRelift env p U fuel k th X Ths Ups).1)
+          (window (k - 1 + j) p.m U)).head?).getD []) := by
+  induction fuel generalizing k th X Ths Ups j with
+  | zero => omega
+  | succ f ih =>
+    simp only [trajNoRelift]
+    generalize hup : ((liftInputEp env p (window (k - 1) p.m X) (window (k - 1) p.m U)).head?).getD [] = up
+    split
+    · rename_i hlt
+      generalize (retractStateEp env p [matVec p.K (th ++ up)]).getLast?.getD [] = xk
+      cases j with
+      | zero =>
+        obtain ⟨⟨t, ht⟩, ⟨t2, ht2⟩⟩ := trajNoRelift_prefix env p U f (k+1) (matVec p.K (th ++ up)) (X ++ [xk])
+          (Ths ++ [matVec p.K (th ++ up)]) (Ups ++ [up])
+        rw [ht2, ht, List.append_assoc, List.append_assoc, window_append_left _ _ _ _ (by omega)]
+        simp [hup]
+      | succ j' =>
+        have := ih (k+1) (matVec p.K (th ++ up)) (X ++ [xk]) (Ths ++ [matVec p.K (th ++ up)]) (Ups ++ [up])
+          (by omega) (by omega) (by simp; omega) j' (by omega)
+        have e1 : (Ups ++ [up]).length + j' = Ups.length + (j' + 1) := by simp; omega
+        have e2 : k + 1 - 1 + j' = k - 1 + (j' + 1) := by omega
+        rw [e1, e2] at this
+        exact this
+    · rename_i hge
+      have hj0 : j = 0 := by omega
+      subst hj0
+      obtain ⟨⟨t, ht⟩, ⟨t2, ht2⟩⟩ := trajNoRelift_prefix env p U f (k+1) th X Ths (Ups ++ [up])
+      rw [ht2, ht, List.append_assoc, window_append_left _ _ _ _ (by omega)]
+      simp [hup]
+
 end Pk
